@@ -1,1 +1,62 @@
-From Verif Require Import Common.Base C06.Model C06.Proofs.
+(* C06/Witness.v — non-vacuity: concrete schedules on which the hypotheses of the theorems in
+   Properties.v hold, and the three layouts named in the plan, evaluated by vm_compute. *)
+From Verif Require Import Common.Base C06.Model C06.Proofs C06.Proofs2.
+
+Ltac slv := vm_compute; repeat split; try discriminate; auto 10.
+
+Definition calls (n : nat) : list label := repeat LCall n.
+
+(* (mutable, mutable, read-only): consumers 0 and 1 get clones (cells 1, 2), consumer 2 the caller's
+   payload, not marked (it is alone on it).  Then everybody writes: all succeed, nobody sees another's write. *)
+Definition w_mmr := run (new_fan [true; true; false]) false [1; 2]%Z
+                        (calls 3 ++ [LWrite 0 (WAppend 7); LWrite 1 (WSet 0 8); LWrite 2 (WRemove 2)])%Z.
+Example mmr_handles : hs w_mmr = [(2, 0); (1, 2); (0, 1)].
+Proof. vm_compute. reflexivity. Qed.
+Example mmr_views : map (view w_mmr) [0; 1; 2] = [Some [1; 2; 7]; Some [8; 2]; Some [1]]%Z.
+Proof. vm_compute. reflexivity. Qed.
+Example mmr_cap : fan_cap (new_fan [true; true; false]) = false.
+Proof. reflexivity. Qed.
+
+(* (read-only x3): one shared payload, marked read-only by the fan-out; the hypotheses of
+   fanout_shared_write_panics / (ii) hold; an undeclared write panics and changes nothing. *)
+Definition w_rrr := run (new_fan [false; false; false]) false [1; 2]%Z (calls 3 ++ [LWrite 1 (WAppend 7%Z)]).
+Example rrr_shared : holds w_rrr 0 0 /\ holds w_rrr 2 0 /\ 0 <> 2 /\ cro (get (st w_rrr) 0) = true.
+Proof. slv. Qed.
+Example rrr_panic : In (EWrite 1 (WAppend 7%Z) WPanic) (elog w_rrr) /\ map (view w_rrr) [0; 1; 2] = [Some [1; 2]; Some [1; 2]; Some [1; 2]]%Z.
+Proof. slv. Qed.
+
+(* all mutating, mutable input: the last mutating consumer gets the caller's payload and the fan-out
+   advertises MutatesData (hypotheses of (iii)); its write succeeds (hypothesis of fanout_write_ok_exclusive). *)
+Definition w_mm := run (new_fan [true; true]) false [1]%Z (calls 2 ++ [LWrite 1 (WAppend 5%Z)]).
+Example mm_orig : holds w_mm 1 0 /\ mutc_of [true; true] 1 = true /\ fan_cap (new_fan [true; true]) = true.
+Proof. slv. Qed.
+Example mm_write_ok : In (EWrite 1 (WAppend 5%Z) WOk) (elog w_mm) /\ view w_mm 1 = Some [1; 5]%Z /\ view w_mm 0 = Some [1]%Z.
+Proof. slv. Qed.
+
+(* read-only input, all mutating: even the last one gets a clone; the caller's payload is untouched. *)
+Definition w_ro_mm := run (new_fan [true; true]) true [1]%Z (calls 2 ++ [LWrite 1 (WAppend 5%Z); LWrite 0 (WRemove 1%Z)]).
+Example ro_mm : hs w_ro_mm = [(1, 2); (0, 1)] /\ cont (get (st w_ro_mm) 0) = [1]%Z /\ cro (get (st w_ro_mm) 0) = true.
+Proof. slv. Qed.
+
+(* asynchronous writer: consumer 0 (mutating, holds a clone) writes between the later calls and after the
+   return; consumers 1 and 2 still receive and keep the sent content. *)
+Definition w_async := run (new_fan [true; false; false]) false [1; 2]%Z
+  [LCall; LWrite 0 (WSet 0 9); LCall; LWrite 0 (WAppend 9); LCall; LWrite 0 (WRemove 2)]%Z.
+Example async_calls : calls_of (elog w_async) = [0; 1; 2] /\
+  map (view w_async) [0; 1; 2] = [Some [9; 9]; Some [1; 2]; Some [1; 2]]%Z.
+Proof. vm_compute. split; reflexivity. Qed.
+
+(* the single non-mutating consumer is not wrapped; alone on a mutable payload its (undeclared) write succeeds *)
+Example direct_single : new_fan [false] = FDirect 0 /\
+  view (run (new_fan [false]) false [1]%Z [LCall; LWrite 0 (WAppend 3%Z)]) 0 = Some [1; 3]%Z.
+Proof. vm_compute. split; reflexivity. Qed.
+
+(* errors: every leaf of every consumer's error is in the result, in call order (mutating consumers first) *)
+Example err_agg : consume_err (new_fan [false; true; false]) [[1]; [2; 3]; []]%N = [2; 3; 1]%N.
+Proof. reflexivity. Qed.
+
+(* pipeline capability: both directions are inhabited *)
+Example pcap1 : pipeline_cap [false; true] [false; false] = true. Proof. reflexivity. Qed.
+Example pcap2 : pipeline_cap [false] [true; true] = true. Proof. reflexivity. Qed.
+Example pcap3 : pipeline_cap [false] [true; false] = false. Proof. reflexivity. Qed.
+Example pcap4 : pipeline_cap [] [] = false. Proof. reflexivity. Qed.
